@@ -5,7 +5,7 @@
 (* Event fields: op, w (window: abs, H0, V0), a (arguments), o (outcome:   *)
 (* "ok" / "err" / "panic"), r (result, projected).                         *)
 (***************************************************************************)
-EXTENDS Neighbour, Keys, Line, Deviations, Validation
+EXTENDS Neighbour, Keys, Line, Deviations, Validation, Helpers
 
 \* ---- generic helpers ------------------------------------------------------
 IsSeq(x) == x = <<>> \/ DOMAIN x = 1..Len(x)     \* used only on values known to be lists
@@ -274,6 +274,41 @@ X_Invalid(e) == Accept(FnByName(e.a.fn), e.a.cv, e.o, e.r.empty, e.r.emptyid)
 \* accepted points: longitude and altitude bit-identical, latitude cut toward zero by < 1e-10 degree (units 1e-13)
 X_PointStore(e) == Ok(e) /\ e.r.lon /\ e.r.alt /\ e.r.toward /\ 0 <= e.r.cut /\ e.r.cut < 1000
 
+\* ---- C20 ------------------------------------------------------------------
+X_SetOps(e) == /\ Ok(e) /\ e.a.kept
+               /\ UnionOk(e.r.union, e.a.x, e.a.y) /\ IntersectOk(e.r.inter, e.a.x, e.a.y)
+               /\ DifferenceOk(e.r.diff, e.a.x, e.a.y) /\ UniqueOk(e.r.uniq, e.a.x)
+               /\ IncludeOk(e.r.incl, e.a.x, e.a.t)
+X_MaxMin(e) == MaxOk(e.r.max, e.r.errmax, e.a.xs) /\ MinOk(e.r.min, e.r.errmin, e.a.xs)
+X_ArithShift(e) == Ok(e) /\ e.r = ShiftPair(e.a.m, e.a.k, e.a.s)
+X_Combinations(e) == Ok(e) /\ e.r = Combinations(e.a.n, e.a.k)    \* every k-subset once, lexicographic
+X_Vector(e) == /\ Ok(e)
+               /\ e.r.add = VAdd(e.a.u, e.a.v) /\ e.r.sub = VSub(e.a.u, e.a.v)
+               /\ e.r.scale = VScale(e.a.u, e.a.s) /\ e.r.cross = VCross(e.a.u, e.a.v)
+               /\ e.r.dot = VDot(e.a.u, e.a.v) /\ e.r.l1 = VL1(e.a.u)
+               /\ e.r.pq = VSub(e.a.v, e.a.u) /\ e.r.tr = VAdd(e.a.u, e.a.v)
+               /\ e.r.norm2dev <= 10
+X_Matrix(e) == /\ Ok(e)
+               /\ e.r.ab = MMul(e.a.A, e.a.B)
+               /\ e.r.abc1 = MMul(MMul(e.a.A, e.a.B), e.a.C) /\ e.r.abc2 = e.r.abc1       \* associative
+               /\ e.r.abv1 = MVec(MMul(e.a.A, e.a.B), e.a.v) /\ e.r.abv2 = e.r.abv1       \* agrees with application
+               /\ e.r.iv = e.a.v
+X_Line3(e) == /\ Ok(e) /\ e.r.t0 = e.a.p /\ e.r.t1 = e.a.q /\ e.r.start = e.a.p /\ e.r.end = e.a.q
+              /\ e.r.mid2 = VAdd(e.a.p, e.a.q)
+\* rotation between two vectors: unit quaternion carrying the first direction onto the second (1e-6)
+X_Quat(e) == Ok(e) /\ e.r.normdev <= 1000000 /\ e.r.dirdev <= 1000000
+
+\* ---- C18 ------------------------------------------------------------------
+AllLeq(s, b) == \A i \in 1..Len(s) : s[i] <= b
+X_Project(e) ==
+  IF ~e.a.known THEN (e.a.n > 0 => Err(e))                 \* unknown EPSG code: conversion error
+  ELSE /\ Ok(e)
+       /\ e.r.n = e.a.n /\ e.r.alt                          \* length / order kept, altitude bit for bit
+       /\ e.r.backok /\ e.r.bn = e.a.n /\ e.r.balt
+       /\ (e.a.code = 3857 =>
+             /\ Len(e.r.devx) = e.a.n /\ AllLeq(e.r.devx, 1000) /\ AllLeq(e.r.devy, 1000)   \* spherical Mercator on R = 6378137 within 1e-6 m
+             /\ Len(e.r.dlon) = e.a.n /\ AllLeq(e.r.dlon, 20) /\ AllLeq(e.r.dlat, 20))      \* back within 2e-10 degree
+
 \* ---- dispatch -------------------------------------------------------------
 Explains(e) ==
   /\ e.bad = ""
@@ -319,6 +354,15 @@ Explains(e) ==
       [] e.op = "Determ"               -> X_Determ(e)
       [] e.op = "Invalid"              -> X_Invalid(e)
       [] e.op = "PointStore"           -> X_PointStore(e)
+      [] e.op = "SetOps"               -> X_SetOps(e)
+      [] e.op = "MaxMin"               -> X_MaxMin(e)
+      [] e.op = "ArithShift"           -> X_ArithShift(e)
+      [] e.op = "Combinations"         -> X_Combinations(e)
+      [] e.op = "Vector"               -> X_Vector(e)
+      [] e.op = "Matrix"               -> X_Matrix(e)
+      [] e.op = "Line3"                -> X_Line3(e)
+      [] e.op = "Quat"                 -> X_Quat(e)
+      [] e.op = "Project"              -> X_Project(e)
       [] OTHER -> FALSE
 
 \* what the specification expected (diagnostics for a rejected line)
@@ -372,12 +416,20 @@ Expected(e) ==
                                          duplicates |-> {e.a.labels[i] : i \in {j \in 1..Len(e.r) : ~DupFree(e.r[j])}}]
     [] e.op = "Invalid"              -> [refused |-> Refused(FnByName(e.a.fn), e.a.cv), kind |-> FnByName(e.a.fn).kind]
     [] e.op = "PointStore"           -> "lon/alt unchanged, 0 <= cut < 1e-10 deg toward zero"
+    [] e.op = "ArithShift"           -> ShiftPair(e.a.m, e.a.k, e.a.s)
+    [] e.op = "Combinations"         -> Combinations(e.a.n, e.a.k)
+    [] e.op = "Vector"               -> [add |-> VAdd(e.a.u, e.a.v), cross |-> VCross(e.a.u, e.a.v), dot |-> VDot(e.a.u, e.a.v)]
+    [] e.op = "Matrix"               -> [ab |-> MMul(e.a.A, e.a.B)]
+    [] e.op \in {"SetOps", "MaxMin", "Line3", "Quat"} -> "helper law"
+    [] e.op = "Project"              -> "Mercator within 1e-6 m, round trip within 2e-10 deg, altitude and list structure kept; unknown code = error"
     [] OTHER -> "no-spec-operator"
 
 \* ---- recorded deviations (known findings) -----------------------------------
 KnownDeviation(e) ==
   IF e.op \in {"Line", "LineSp"} /\ e.bad = "" /\ Ok(e)
      /\ LineAcceptRetruncated(e.r, e.a.moves, e.a.end, e.a.retr) THEN "D11"
+  ELSE IF e.op = "Project"
+     /\ ProjectHighAltitude(e.a.known, e.a.code, e.a.maxalt, Ok(e), e.a.n, e.r.n, e.r.alt, e.r.backok, e.r.bn, e.r.balt) THEN "D12"
   ELSE IF e.op = "PointStore" /\ Ok(e)
      /\ PointStoreWholeStep(e.r.lon, e.r.alt, e.r.toward, e.r.cut, e.r.ongrid) THEN "D11"
   ELSE ""
